@@ -1,3 +1,7 @@
+pub mod c31;
+pub mod c33;
+pub mod groupworld;
+
 pub fn all() -> Vec<&'static dyn simcore::Property> {
-    vec![]
+    vec![&c31::C31, &c33::C33]
 }
